@@ -50,8 +50,20 @@ func Render(stmts []Stmt, enc Enc, style int) []byte {
 			}
 		case "v", "vt", "vn":
 			b.WriteString(lead + st.T)
-			for _, k := range st.X {
+			xs := st.X
+			if st.T == "vt" && style%11 == 9 && len(xs) == 2 && enc.Val(xs[1]) == 0 {
+				xs = xs[:1] // "vt u": the second texture coordinate is optional and defaults to 0
+			}
+			for _, k := range xs {
 				b.WriteString(sep + num(k))
+			}
+			// optional trailing numbers the format allows: a weight behind v (x y z w), a third
+			// texture coordinate behind vt (u v w); they do not change what the text denotes
+			if style%11 == 7 && st.T == "v" {
+				b.WriteString(sep + "1")
+			}
+			if style%11 >= 7 && style%11 <= 8 && st.T == "vt" {
+				b.WriteString(sep + "0")
 			}
 			if style%8 == 6 {
 				b.WriteString(" ")
